@@ -56,7 +56,7 @@ class Ctx:
         self.meta = meta
         self.events = []
         self.g = extract_grammar(built.considered, built.start, expansion_depthing=expd)
-        self.decl = declared_grammar(list(built.classes.values()), built.start)
+        self.decl = built.oracle()
         self.impl0 = impl_grammar(self.g)
         self.mind = int(self.g.get_min_tree_depth())
 
@@ -259,7 +259,7 @@ def run_grammar(spec, prop, R, tier, batch, stats):
                 ctx = Ctx(b, prop, meta=(prop == "C11"))
         except Exception as e:
             batch.trace(spec["id"], [{"e": "extract_failed", "exc": exc_name(e)}],
-                        {"k": "syn", "g": declared_grammar(list(b.classes.values()), b.start), "impl0": {"expd": False},
+                        {"k": "syn", "g": b.oracle(), "impl0": {"expd": False},
                          "annot": "strings" if spec.get("postponed") else "objects"})
             return
         quick = tier == "quick"
